@@ -168,6 +168,11 @@ namespace AIToolbox::MDP {
     }
 
     template <IsGenerativeModel M>
+    void DynaQ<M>::setN(const unsigned n) {
+        N = n;
+    }
+
+    template <IsGenerativeModel M>
     unsigned DynaQ<M>::getN() const {
         return N;
     }
